@@ -55,14 +55,17 @@ TRUSTED = ["hand model Tetl/C03/Model.lean + Session.lean (event sequences) tied
            "the instrumented element type and address registry of harness/c03.cpp",
            "spec Tetl/C03/Spec.lean validated against the std-side bookkeeping (R2) on every run"]
 _P = "Tetl.C03.Props."
-_VEC = [_P + "vec_step_safe", _P + "vec_reach_inv", _P + "vec_finish_balanced"]
-_ALT = [_P + "alt_step_safe", _P + "alt_reach_inv", _P + "alt_finish_balanced"]
-_FN = [_P + "fn_step_safe", _P + "fn_reach_inv", _P + "fn_finish_balanced"]
+_VEC = [_P + "vec_step_safe", _P + "vec_reach_inv", _P + "vec_finish_balanced", _P + "vec_history_safe"]
+_SET = [_P + "set_step_safe", _P + "set_reach_inv", _P + "set_history_safe"]
+_ALT = [_P + "alt_step_safe_partial", _P + "alt_reach_inv_partial", _P + "alt_finish_balanced", _P + "alt_history_safe_partial"]
+_FN = [_P + "fn_step_safe", _P + "fn_reach_inv", _P + "fn_finish_balanced", _P + "fn_history_safe"]
 THEOREMS = {op: _VEC for op in
             ["push_c", "push_m", "emplace_back", "try_push_c", "try_push_m", "try_emplace_back", "pop", "ins_c", "ins_m",
              "ins_n", "ins_r", "emplace", "erase_at", "erase_range", "clear", "resize", "resize_v", "assign_n", "assign_r",
              "erase_if", "cctor", "mctor", "cassign", "massign", "cassign_self", "swap", "swap_self", "end", "new", "detail"]}
 THEOREMS.update({op: _ALT for op in ["vemplace", "vemplace_c", "vemplace_m", "oassign_c", "oassign_m", "reset", "use"]})
+THEOREMS.update({op: _SET for op in ["sins_c", "sins_m", "semplace", "erase_key", "extract"]})
+THEOREMS["vassign_own"] = [_P + "alt_assign_own_counterexample", _P + "alt_step_safe_partial"]
 THEOREMS.update({op: _FN for op in ["fctor_c", "fctor_m", "fassign_c", "fassign_m", "massign_self", "invoke"]})
 THEOREMS["swap_self"] = _VEC + [_P + "vec_swap_self_id", _P + "alt_swap_self_id", _P + "fn_swap_self_id"]
 THEOREMS["cassign_self"] = _VEC + [_P + "alt_copy_assign_self_id", _P + "fn_assign_self_id"]
@@ -434,6 +437,13 @@ def generate(tier, seed):
                     if ok:
                         add(lines, "seq%d/%s/%s" % (depth, own, kind))
 
+    # ---- the known finding: converting assignment of a variant from its own live alternative
+    for kind in ("cm", "co"):
+        for j in range(3):
+            for pre in ([], ["mctor t=1"], ["swap_self t=0"]):
+                add(["new own=var kind=%s cap=1" % kind, "vemplace t=0 j=%d v=%d" % (j, 4 + j)] + pre + ["vassign_own t=0"],
+                    "finding/var/%s" % kind)
+
     # ---- random histories
     nrand = 12000 if thorough else 1500
     for _ in range(nrand):
@@ -465,6 +475,9 @@ def nontrivial(case, rows):
 
 
 def classify(case, k, row):
+    """same predicate as the case `.assignOwn => false` of Tetl.C03.xvalid"""
+    if case.lines[k].startswith("vassign_own") and "life(use-dead)" in row.impl:
+        return "F-C03-variant-assign-own-alternative"
     return None
 
 
